@@ -19,7 +19,9 @@ import (
 	"errors"
 	"fmt"
 	"io"
+	"net"
 	"os"
+	"runtime"
 	"sort"
 	"strconv"
 	"strings"
@@ -34,6 +36,8 @@ import (
 	"github.com/refraction-networking/uquic/internal/verifharness/e2e"
 	"github.com/refraction-networking/uquic/internal/verifharness/vh"
 	"github.com/refraction-networking/uquic/qlog"
+	"github.com/refraction-networking/uquic/qlogwriter"
+	"github.com/refraction-networking/uquic/testutils/simnet"
 	"github.com/refraction-networking/uquic/quicvarint"
 	tls "github.com/refraction-networking/utls"
 )
@@ -50,6 +54,8 @@ type scriptReader struct {
 	pos    int
 	tail   *vh.Rand
 	reads  []int
+	nreads int
+	tokOff int // stream position of the read issued by (*dummyTokenStore).Pop, -1 if none
 }
 
 func newScriptReader(script []byte) *scriptReader {
@@ -58,12 +64,16 @@ func newScriptReader(script []byte) *scriptReader {
 		h ^= uint64(b)
 		h *= 1099511628211
 	}
-	return &scriptReader{script: script, tail: vh.NewRand(h)}
+	return &scriptReader{script: script, tail: vh.NewRand(h), tokOff: -1}
 }
 
 func (s *scriptReader) Read(p []byte) (int, error) {
 	s.mu.Lock()
 	defer s.mu.Unlock()
+	if s.nreads < 200 && s.tokOff < 0 && calledFromTokenPop() {
+		s.tokOff = s.pos
+	}
+	s.nreads++
 	for i := range p {
 		if s.pos < len(s.script) {
 			p[i] = s.script[s.pos]
@@ -76,6 +86,23 @@ func (s *scriptReader) Read(p []byte) (int, error) {
 		s.reads = append(s.reads, len(p))
 	}
 	return len(p), nil
+}
+
+// calledFromTokenPop reports whether the current read of the random source was issued by the spec's
+// synthesising token store (recovered witness: where in the stream the token's random tail was drawn).
+func calledFromTokenPop() bool {
+	var pcs [32]uintptr
+	n := runtime.Callers(3, pcs[:])
+	fr := runtime.CallersFrames(pcs[:n])
+	for {
+		f, more := fr.Next()
+		if strings.HasSuffix(f.Function, "(*dummyTokenStore).Pop") {
+			return true
+		}
+		if !more {
+			return false
+		}
+	}
 }
 
 // ---------------------------------------------------------------- config
@@ -458,6 +485,7 @@ func buildSpec(c cfg) (*quic.QUICSpec, error) {
 type unprot struct {
 	status string // ok | pnmiss | short | bad | malformed
 	plain  []byte // unprotected header ++ plaintext payload (no tag)
+	end    int    // end of the QUIC packet inside the datagram according to its Length field (0 if malformed)
 }
 
 func readVarint(b []byte, off int) (uint64, int, bool) {
@@ -517,7 +545,7 @@ func unprotectInitial(d []byte, openers map[string]handshake.LongHeaderOpener, a
 	end := pnOff + int(length)
 	if end < pnOff+4+16 {
 		// RFC 9001 §5.4.2: the sample would reach past the packet; a receiver discards it
-		return unprot{status: "short", plain: append([]byte(nil), d[:pnOff]...)}
+		return unprot{status: "short", plain: append([]byte(nil), d[:pnOff]...), end: end}
 	}
 	key := string(dcid) + fmt.Sprint(ver)
 	op := openers[key]
@@ -538,14 +566,14 @@ func unprotectInitial(d []byte, openers map[string]handshake.LongHeaderOpener, a
 	pn := op.DecodePacketNumber(protocol.PacketNumber(wire), protocol.PacketNumberLen(pnLen))
 	pt, err := op.Open(nil, pkt[pnOff+pnLen:], pn, hdr)
 	if err == nil {
-		return unprot{status: "ok", plain: append(append([]byte(nil), hdr...), pt...)}
+		return unprot{status: "ok", plain: append(append([]byte(nil), hdr...), pt...), end: end}
 	}
 	if altPN >= 0 && protocol.PacketNumber(altPN) != pn {
 		if pt, err := op.Open(nil, pkt[pnOff+pnLen:], protocol.PacketNumber(altPN), hdr); err == nil {
-			return unprot{status: "pnmiss", plain: append(append([]byte(nil), hdr...), pt...)}
+			return unprot{status: "pnmiss", plain: append(append([]byte(nil), hdr...), pt...), end: end}
 		}
 	}
-	return unprot{status: "bad", plain: append([]byte(nil), hdr...)}
+	return unprot{status: "bad", plain: append([]byte(nil), hdr...), end: end}
 }
 
 // ---------------------------------------------------------------- one dial
@@ -577,6 +605,47 @@ func errClass(err error) string {
 	return "E:other:" + s
 }
 
+// capNet is the simulated path: a perfect router that records every datagram (virtual timestamps)
+// and can be a dead path towards the server (capture only). Links carry up to 64 KB so that no
+// datagram the client emits is lost before it is recorded.
+type capNet struct {
+	mu    sync.Mutex
+	inner simnet.PerfectRouter
+	start time.Time
+	dead  bool
+	c2s   []capDgram
+	s2c   []capDgram
+}
+
+type capDgram struct {
+	at   time.Duration
+	data []byte
+}
+
+func (n *capNet) SendPacket(p simnet.Packet) error {
+	toServer := p.To.String() == e2e.ServerAddr.String()
+	rec := capDgram{at: time.Since(n.start), data: append([]byte(nil), p.Data...)}
+	n.mu.Lock()
+	if toServer {
+		n.c2s = append(n.c2s, rec)
+	} else {
+		n.s2c = append(n.s2c, rec)
+	}
+	dead := n.dead && toServer
+	n.mu.Unlock()
+	if dead {
+		return nil
+	}
+	return n.inner.SendPacket(p)
+}
+func (n *capNet) AddNode(addr net.Addr, conn simnet.PacketReceiver) { n.inner.AddNode(addr, conn) }
+func (n *capNet) RemoveNode(addr net.Addr)                          { n.inner.RemoveNode(addr) }
+
+type qtrace struct{ r *e2e.Recorder }
+
+func (t qtrace) AddProducer() qlogwriter.Recorder { return t.r }
+func (t qtrace) SupportsSchemas(string) bool       { return true }
+
 func (rn *runner) dial(c cfg) string {
 	spec, err := buildSpec(c)
 	if err != nil {
@@ -585,64 +654,89 @@ func (rn *runner) dial(c cfg) string {
 	var res string
 	synctest.Test(theT, func(t *testing.T) {
 		quic.VerifResetLastUClient()
-		env, err := e2e.Start(e2e.Setup{Spec: spec, Qlog: c.mode == "live", ClientConf: &quic.Config{InitialPacketSize: uint16(c.ips)}})
-		if err != nil {
+		nw := &capNet{start: time.Now(), dead: c.mode == "dead"}
+		sim := &simnet.Simnet{Router: nw}
+		link := simnet.NodeBiDiLinkSettings{Latency: 10 * time.Millisecond,
+			Downlink: simnet.LinkSettings{MTU: 65535}, Uplink: simnet.LinkSettings{MTU: 65535}}
+		cpc := sim.NewEndpoint(e2e.ClientAddr, link)
+		spc := sim.NewEndpoint(e2e.ServerAddr, link)
+		if err := sim.Start(); err != nil {
 			res = "bad-op start " + err.Error()
+			return
+		}
+		srvLog := &e2e.Recorder{}
+		sconf := &quic.Config{}
+		if c.mode == "live" {
+			sconf.Tracer = func(context.Context, bool, quic.ConnectionID) qlogwriter.Trace { return qtrace{srvLog} }
+		}
+		serverTr := &quic.Transport{Conn: spc}
+		ln, err := serverTr.Listen(e2e.ServerTLSConfig(), sconf)
+		if err != nil {
+			res = "bad-op listen " + err.Error()
 			return
 		}
 		// fixed transport keys: Transport.init then draws nothing, so the scripted stream starts with
 		// the dial's own draws (source connection ID first)
-		env.ClientTr.StatelessResetKey = &quic.StatelessResetKey{1}
-		env.ClientTr.TokenGeneratorKey = &quic.TokenGeneratorKey{2}
+		clientTr := &quic.Transport{Conn: cpc, StatelessResetKey: &quic.StatelessResetKey{1}, TokenGeneratorKey: &quic.TokenGeneratorKey{2}}
+		ut := &quic.UTransport{Transport: clientTr, QUICSpec: spec}
 		sr := newScriptReader(c.script)
 		saved := rand.Reader
 		rand.Reader = sr
 		defer func() { rand.Reader = saved }()
-		if c.mode == "dead" {
-			env.Net.DropAll[e2e.ToServer] = true
-		}
+
 		timeout := 100 * time.Millisecond // below the first PTO: only the first flight is sent
 		if c.mode == "live" {
 			timeout = 3 * time.Second
 			go func() {
 				for {
-					sc, err := env.Listener.Accept(context.Background())
-					if err != nil {
+					if _, err := ln.Accept(context.Background()); err != nil {
 						return
 					}
-					_ = sc
 				}
 			}()
 		}
 		ctx, cancel := context.WithTimeout(context.Background(), timeout)
-		conn, derr := env.Dial(ctx)
+		conn, derr := ut.Dial(ctx, e2e.ServerAddr, e2e.ClientTLSConfig(), &quic.Config{InitialPacketSize: uint16(c.ips)})
 		cancel()
 		if conn != nil {
+			// Let the client send its Handshake flight (and drop its Initial keys) before closing: closing at the
+			// instant the handshake completes makes packConnectionClose pad an Initial packet so that the
+			// coalesced CONNECTION_CLOSE fills maxPacketSize exactly while its size estimate omits the 1-RTT
+			// packet's AEAD tag; with a maximum packet size near the 1452-byte buffer that overflows the packet
+			// buffer and panics in the run loop (upstream packet_packer.go, outside property C10).
+			time.Sleep(300 * time.Millisecond)
 			conn.CloseWithError(0, "")
 		}
 		// let in-flight datagrams settle, then tear down
 		time.Sleep(50 * time.Millisecond)
-		env.Close()
+		ln.Close()
+		clientTr.Close()
+		serverTr.Close()
+		cpc.Close()
+		spc.Close()
+		sim.Close()
 		synctest.Wait()
 
-		c2s := env.Net.Datagrams(e2e.ToServer)
-		s2c := env.Net.Datagrams(e2e.ToClient)
+		nw.mu.Lock()
+		c2s, s2c := nw.c2s, nw.s2c
+		nw.mu.Unlock()
+		// the first flight: everything the client sent before it heard from the server, and before its first PTO
 		limit := 90 * time.Millisecond
-		if len(s2c) > 0 && s2c[0].At < limit {
-			limit = s2c[0].At
+		if len(s2c) > 0 && s2c[0].at < limit {
+			limit = s2c[0].at
 		}
-		var flight []e2e.Datagram
+		var flight []capDgram
 		for _, d := range c2s {
-			if d.At < limit || (len(s2c) == 0 && d.At < 90*time.Millisecond) {
+			if d.at < limit {
 				flight = append(flight, d)
 			}
 		}
 		L, maxSize := quic.VerifInitialCryptoWritten()
 		var sb strings.Builder
-		fmt.Fprintf(&sb, "err=%s L=%d max=%d n=%d", errClass(derr), L, maxSize, len(flight))
+		fmt.Fprintf(&sb, "err=%s L=%d max=%d tokoff=%d n=%d", errClass(derr), L, maxSize, sr.tokOff, len(flight))
 		if c.mode == "live" {
 			var pns []string
-			for _, ev := range env.ServerLog.Events {
+			for _, ev := range srvLog.Events {
 				if pr, ok := ev.(qlog.PacketReceived); ok && pr.Header.PacketType == qlog.PacketTypeInitial {
 					pns = append(pns, strconv.FormatInt(int64(pr.Header.PacketNumber), 10))
 				}
@@ -653,18 +747,24 @@ func (rn *runner) dial(c cfg) string {
 			fmt.Fprintf(&sb, " srv=%s", strings.Join(pns, "."))
 		}
 		openers := map[string]handshake.LongHeaderOpener{}
-		ipn := int64(-1)
+		ipn := int64(0)
 		if c.ipn <= 1<<62-1 {
 			ipn = int64(c.ipn)
-		} else {
-			ipn = 0
 		}
 		for i, d := range flight {
-			u := unprotectInitial(d.Data, openers, ipn+int64(i))
-			fmt.Fprintf(&sb, " | %d:%s:%s", len(d.Data), u.status, hex.EncodeToString(u.plain))
+			u := unprotectInitial(d.data, openers, ipn+int64(i))
+			tz := 0
+			if u.end > 0 {
+				tz = 1
+				for _, b := range d.data[u.end:] {
+					if b != 0 {
+						tz = 0
+					}
+				}
+			}
+			fmt.Fprintf(&sb, " | %d:%s:%d:%s", len(d.data), u.status, tz, hex.EncodeToString(u.plain))
 		}
 		res = sb.String()
-		rn.lastReads = sr.reads
 		if os.Getenv("VH_DEBUG_READS") != "" {
 			res += fmt.Sprintf(" READS=%v", sr.reads)
 		}
@@ -676,8 +776,7 @@ func (rn *runner) dial(c cfg) string {
 
 type runner struct {
 	base      string // config part of the op line for this case
-	liveP     int
-	lastReads []int
+	liveP int
 }
 
 var ipnChoices = []uint64{0, 1, 2, 255, 300, 1 << 31, 1<<62 - 1, 1 << 62, 1<<64 - 1}
@@ -834,6 +933,12 @@ func (rn *runner) genBase(r *vh.Rand) string {
 		}
 		rn.liveP = 60
 	}
+	if kind != 3 && r.Chance(3) { // an encoding length no packet number can have: the dial must fail cleanly
+		pnl1, pnlS = []int{5, 7}[r.Intn(2)], "-"
+	}
+	if kind == 2 && strings.HasPrefix(fb, "rf:") && r.Chance(6) { // bounds the builder rejects
+		fb = []string{"rf:3.1.1.2.0.0.0", "rf:0.1.0.2.0.0.0", "rf:0.1.4.2.0.0.0", "rf:0.1.1.2.0.3.900", "rf:0.1.1.2.4.2.900"}[r.Intn(5)]
+	}
 	if strings.HasPrefix(fb, "qf:") && strings.Count(fb, "C") > 1 {
 		// QUICFrames.build panics (negative make / slice bounds, in the connection's run loop) when a datagram's
 		// CRYPTO slice is shorter than the layout's offsets: keep layouts with offsets to single-datagram flights
@@ -845,6 +950,26 @@ func (rn *runner) genBase(r *vh.Rand) string {
 		}
 		if plans != "-" {
 			plans = []string{"0/1200", "0/1250", "0/0"}[r.Intn(3)]
+		}
+	}
+	// keep flights short: a CryptoLength that repeats (last plan entry; or the first one on the pass-through
+	// path, whose plan index never advances) cuts the ClientHello into est/c datagrams, and more than ~10
+	// datagrams at one virtual instant make the pacer spin under synctest's frozen clock
+	if plans != "-" {
+		est := map[string]int{"ff": 520, "c115": 320, "c146": 1800}[chBase] + pad
+		ps := strings.Split(plans, ",")
+		rep := atoi(strings.Split(ps[len(ps)-1], "/")[0])
+		if fb == "nil" || fb == "qf:" {
+			rep = atoi(strings.Split(ps[0], "/")[0])
+		}
+		if rep > 0 && est/rep > 5 {
+			pad = 0
+			if chBase == "c146" {
+				chBase = "ff"
+			}
+			if est = map[string]int{"ff": 520, "c115": 320}[chBase]; est/rep > 5 {
+				plans = "0/1250"
+			}
 		}
 	}
 	return fmt.Sprintf("id=- ips=%d scid=%d dcid=%d ipn=%d pnl1=%d pnls=%s tok=%s udp=%d plans=%s fb=%s ch=%s+%d",
@@ -879,6 +1004,9 @@ func (rn *runner) Exec(op string) string {
 	if !strings.HasPrefix(op, "dial ") {
 		return "bad-op"
 	}
+	if os.Getenv("VH_DEBUG_OPS") != "" {
+		fmt.Fprintln(os.Stderr, "OP", op)
+	}
 	c, err := parseCfg(op)
 	if err != nil {
 		return "bad-op " + err.Error()
@@ -893,6 +1021,18 @@ func (rn *runner) Exec(op string) string {
 			return "cfg-mismatch " + d
 		}
 	}
+	// real-time watchdog (outside the bubble): a dial is a few milliseconds of CPU; a run loop that spins
+	// under the frozen virtual clock must not hang the check
+	done := make(chan struct{})
+	go func() {
+		select {
+		case <-done:
+		case <-time.After(90 * time.Second):
+			fmt.Fprintln(os.Stderr, "initial driver: watchdog: dial did not finish within 90 s of real time:", op)
+			os.Exit(3)
+		}
+	}()
+	defer close(done)
 	return rn.dial(c)
 }
 
